@@ -521,7 +521,14 @@ class Ex:
         try:
             for e in extra:
                 self.solver.add(e)
-            return timed_check(self.solver, timeout)
+            r = timed_check(self.solver, timeout)
+            self._last_model = None
+            if r == z3.sat and getattr(self, "_want_model", False):
+                try:
+                    self._last_model = self._model_of(self.solver.model())
+                except Exception:
+                    self._last_model = None
+            return r
         finally:
             self.solver.pop()
 
@@ -577,9 +584,13 @@ class Ex:
         neg = z3.Not(f)
         # fast path: incremental solver; then the cone of influence of the goal; then a fresh
         # one-shot solver on everything (stronger preprocessing); then cvc5
-        r = self._check([neg], min(2500, self.VC_TIMEOUT_MS))
+        self._want_model = True
+        try:
+            r = self._check([neg], min(2500, self.VC_TIMEOUT_MS))
+        finally:
+            self._want_model = False
         backend = "z3"
-        model = None
+        model = self._last_model if r == z3.sat else None
         candidate = None
         size = len(self.solver.sexpr()) + len(neg.sexpr())
         if r == z3.unknown:
